@@ -4,7 +4,6 @@ Protocol (harness/value_harness.cpp, lean/Qentem/Driver/Value.lean):
   valseq [@<roots>] <op> ; <op> ; ...   one line = one operation sequence over four named roots
 Every choice comes from the rng handed in (ctx.rng)."""
 import itertools
-from vlib import core
 
 KEYS = [[], [97], [98], [97, 97], [97, 98]]
 KEY_VARIANTS = "abcdef"
@@ -289,10 +288,3 @@ def first_diff(a, b):
                         k += 1
                     return "step %d field %d: impl ...%s | model ...%s" % (i, j, u[max(0, k - 40):k + 60], v[max(0, k - 40):k + 60])
     return "length differs (%d vs %d steps)" % (len(sa), len(sb))
-
-
-def detect_token(exe):
-    """Which GroupBy do the headers have: removed items abort the call ('grp') or are skipped ('grpfix')?"""
-    probe = "valview set 1/ia0/ka107 n1 ; set 1/ia0/ka109 n2 ; rem 1/ia0 109 a ; grp 0 1 107"
-    o, _ = core.run_lines(exe, [probe])
-    return "grpfix" if o and o[0].startswith("1/") else "grp"
